@@ -1004,6 +1004,8 @@ func (x *Exec) nextInstr(fr *Frame, st *State, in *ssa.Next) Val {
 			nv := x.d.Fresh("vis", vis.Sort)
 			st.assume(Eq(nv, Ite(okv.T, Store(vis, kt, True), vis)))
 			st.ghost["vis:"+id] = nv
+			// exhausted(m): the iteration has produced its last key (this Next said "no more")
+			st.ghost["visdone:"+id] = Not(okv.T)
 			x.funcsUsed["assume:a range over a map produces each key at most once and, when it runs to completion, every key that stayed in the map"] = true
 		}
 		v = Val{T: Select(Select(val, it.T), k.T), Typ: mt.Elem()}
